@@ -343,6 +343,18 @@ func (r *persistRunner) Exec(line string) string {
 			parts[i] = hx([]byte(k)) + "=" + hx(got[k])
 		}
 		r.tag("range")
+		if r.kind == "mem" || r.batch == 1 {
+			// write-through configurations: everything acknowledged is flushed, so RangeKeys on the OPEN persister visits exactly
+			// the acknowledged map (C09, last sentence; on a sharded persister: the union of all shards, C19)
+			if len(got) != len(r.ref) {
+				r.add("C09", "range-open", fmt.Sprintf("RangeKeys visits %d keys, the flushed map holds %d", len(got), len(r.ref)))
+			}
+			for k, v := range r.ref {
+				if g, ok := got[k]; !ok || !bytes.Equal(g, v) {
+					r.add("C09", "range-open", "key "+hx([]byte(k))+" is flushed but not visited (or visited with another value)")
+				}
+			}
+		}
 		return "[" + strings.Join(parts, ",") + "]"
 	}
 	return "bad-op"
